@@ -48,21 +48,24 @@ def send_msg(sock, msg, comment=None):
         raise ConnectionClosedError() from e
 
 
-def recv_msg(sock, state_overwrites=None, comment=None):
+def _recv_exact(sock, size):
+    data = bytearray()
     try:
-        data_len = struct.unpack('!I', sock.recv(4))[0]
-    except (BrokenPipeError, struct.error, ConnectionResetError, ConnectionAbortedError, OSError) as e:
-        raise ConnectionClosedError() from e
-
-    logger.abusive('Receiving a message: {} ({})', data_len, comment)
-    data = bytes()
-    try:
-        while data_len:
-            chunk = sock.recv(data_len)
-            data_len -= len(chunk)
+        while len(data) < size:
+            chunk = sock.recv(size - len(data))
+            if not chunk:
+                # end of stream before the requested number of bytes has arrived
+                raise ConnectionClosedError()
             data += chunk
-    except (ConnectionResetError) as e:
+    except OSError as e:
         raise ConnectionClosedError() from e
+    return bytes(data)
+
+
+def recv_msg(sock, state_overwrites=None, comment=None):
+    data_len = struct.unpack('!I', _recv_exact(sock, 4))[0]
+    logger.abusive('Receiving a message: {} ({})', data_len, comment)
+    data = _recv_exact(sock, data_len)
     logger.abusive('Message received ({}), deserializing...', comment)
     msg = remote_pickle.loads(data, extra_kwargs=state_overwrites)
     return msg
